@@ -426,3 +426,11 @@ def r5(ctx: Ctx) -> None:
                 ok = yes[0] == "sub" and _is_call(yes[2], "index") and yes[2][1][1] == cid and yes[2][2][0] == b and no[0] == "sub" and _is_call(no[2], "index") and no[2][1][1] == other_ids[0] and no[2][2][0] == b
                 ok = ok and _drift_source(no[1]) == [other_ids[0]] and "standard_normal" not in key(no[1])
         ctx.check(ok, f, f.node, "rows are returned in the requested market order; zero-volatility markets get their drift and no noise", "np.stack([chol_row[idx(x)] if x in volatile else drift_row[idx(x)] for x in ids])", short(ret)[:80])
+
+
+@rule("C12.H1", "mechanism shared with C18: each market is registered with its own configured drift, volatility and initial value (defaults are per market type)", "T12 loop-carried dataflow (same rule as C18.R8)", floor=3)
+def h1(ctx: Ctx) -> None:
+    from .c18 import check_no_carry_over
+
+    n = check_no_carry_over(ctx)
+    ctx.require(n >= 3, "expansion loops not found")
